@@ -172,6 +172,46 @@ def gen_pure(rnd):
     return '\n'.join(out)
 
 
+def closure_programs(rnd):
+    """local functions closing over a variable that a later control statement assigns, reached directly, through a
+    sibling closure, a two-hop chain or an alias; the variable is read after the statement only through them"""
+    out = []
+    k = [100]
+
+    def key():
+        k[0] += 1
+        return k[0]
+    for ctrl in ('if', 'ifelse', 'while', 'for'):
+        for via in ('direct', 'sibling', 'twohop', 'alias', 'container'):
+            for read_inside in (False, True):
+                L = ['def f(a, b, c):', '    x = T(%d, a)' % key(), '    def g():', '        return T(%d, x)' % key()]
+                call = 'g()'
+                if via == 'sibling':
+                    L += ['    def h():', '        return g()']
+                    call = 'h()'
+                elif via == 'twohop':
+                    L += ['    def h():', '        return g()', '    def m():', '        return h()']
+                    call = 'm()'
+                elif via == 'alias':
+                    L += ['    k = g']
+                    call = 'k()'
+                elif via == 'container':
+                    L += ['    fs = [g]']
+                    call = 'fs[0]()'
+                rhs = 'T(%d, b%s)' % (key(), ', x' if read_inside else '')
+                if ctrl == 'if':
+                    L += ['    if P(%d, %s):' % (key(), rnd.choice('abc')), '        x = ' + rhs]
+                elif ctrl == 'ifelse':
+                    L += ['    if P(%d, %s):' % (key(), rnd.choice('abc')), '        x = ' + rhs, '    else:', '        c = T(%d, c)' % key()]
+                elif ctrl == 'while':
+                    L += ['    n = 0', '    while n < 2 and P(%d, n):' % key(), '        n += 1', '        x = ' + rhs]
+                else:
+                    L += ['    for i in R(%d):' % key(), '        x = ' + rhs]
+                L += ['    return T(%d, %s)' % (key(), call)]
+                out.append('\n'.join(L) + '\n')
+    return out
+
+
 def run_pure(fn):
     try:
         return ('return', repr(fn(1, 2, 3)))
@@ -220,7 +260,7 @@ def check(run):
     from malt.impl import api
     failures = []
     nprog = 150 if quick else 2000
-    srcs = [gen_pure(rnd) for _ in range(nprog)]
+    srcs = closure_programs(rnd) + [gen_pure(rnd) for _ in range(nprog)]
     cdir = os.path.join(vlib.ROOT, 'corpus', 'C02')
     csrcs = []
     if os.path.isdir(cdir):
